@@ -20,7 +20,7 @@ SPEC = dict(
           "(healthy, black hole, flaky), optional healed tail of N requests. exhaustive: N in 1..3, MinSuccesses in 0..N+1, "
           "all 3^(7+N) sequences. swarm: detector configuration (both read/write, read-only with directly driven shared "
           "counters, UDP only, IPv6 only), N in 1..4 and MinSuccesses in 0..N+1 per detector, NoDelay or default dial "
-          "ranker, sequential or overlapping issue, 1-40 operations (DialPeer of a fresh peer with 1-5 addresses drawn "
+          "ranker, sequential or overlapping issue, 1-30 operations (DialPeer of a fresh peer with 1-5 addresses drawn "
           "from {public,private}x{QUIC,TCP}x{IPv4,IPv6} with per-address reachability, latency and timeout-vs-fast-fail "
           "behaviour; CanDial; network switch of UDP and/or IPv6; direct RecordResult bursts in the read-only stratum), "
           "then a healed tail of N..2N single-address dials per detector. non-trivial = at least one request and one "
